@@ -732,3 +732,6 @@ def run(ctx, rep):
             f(ctx, rep)
         except Unsupported as u:
             rep.undecided(rule, f.__name__, f"line {getattr(u.node, 'lineno', 0)}", str(u))
+    # the operator's cached M⁻¹ follows the mass matrix through change notifications only: no silent in-place write to a parameter in the hmc package
+    from props import c11
+    c11.check_inplace(ctx, rep, rule='C16.K', only=lambda m, fn: m.name.startswith('torchtree.inference.hmc'))
